@@ -338,12 +338,12 @@ func allRows() []srvSpec {
 var pxTypes = []string{"tcp", "https", "tcpmux", "stcp", "xtcp"}
 
 type connResult struct {
-	coq      string
-	labels   []string
-	goFail   string
+	coq        string
+	labels     []string
+	goFail     string
 	kcpNoClose bool
-	nontriv  bool
-	duration time.Duration
+	nontriv    bool
+	duration   time.Duration
 }
 
 func clientHello(sni string) []byte {
@@ -755,7 +755,8 @@ func runServer(sp srvSpec, seed int64, tier string, connsPer int) ([]connResult,
 			b.Transport.UseEncryption, b.Transport.UseCompression = px.enc, px.comp
 			b.Transport.ProxyProtocolVersion = px.pp
 			if px.lim != 0 {
-				q, _ := types.NewBandwidthQuantity("256KB")
+				// the same 262144 B/s, configured as a fraction of a MB on every other configuration
+				q, _ := types.NewBandwidthQuantity([]string{"256KB", "0.25MB"}[sp.idx%2])
 				b.Transport.BandwidthLimit = q
 				b.Transport.BandwidthLimitMode = []string{"", "client", "server"}[px.lim]
 			}
